@@ -50,6 +50,8 @@ type Compiler struct {
 	moduleScopes map[string]map[string]string
 	// Functions which a module imports from other Homescript modules: local name -> mangled function.
 	importedFns map[string]map[string]string
+	// Per module: the items imported from host modules and the name under which the VM keeps each.
+	hostImports map[string]map[string]string
 	// All functions in the order in which they were created: the functions of a module come before
 	// the function literals in their bodies and a function literal comes before the ones nested in it.
 	fnOrder []fnKey
@@ -81,6 +83,7 @@ func NewCompiler(program map[string]ast.AnalyzedProgram, entryPointModule string
 		lambdaCount:     make(map[string]uint),
 		moduleScopes:    make(map[string]map[string]string),
 		importedFns:     make(map[string]map[string]string),
+		hostImports:     make(map[string]map[string]string),
 		// Program source.
 		analyzedSource:   program,
 		entryPointModule: entryPointModule,
@@ -179,6 +182,10 @@ func (self *Compiler) compileProgram(
 				if importItem.Kind != pAst.IMPORT_KIND_NORMAL {
 					continue
 				}
+				if self.hostImports[moduleName] == nil {
+					self.hostImports[moduleName] = make(map[string]string)
+				}
+				self.hostImports[moduleName][importItem.Ident.Ident()] = HostImportIdent(item.FromModule.Ident(), importItem.Ident.Ident())
 				self.insert(newTwoStringInstruction(Opcode_Import, item.FromModule.Ident(), importItem.Ident.Ident()), item.Range)
 			}
 		}
